@@ -155,12 +155,13 @@ impl: `<intervalNs> <calls> <total> <min> <max>` | `err`. Spec = the statement o
 `|total − cycles·N| ≤ (a·N + 1/2 + 1/1000)/(1 − a)` with `a = jn/(100·jd) < 1`, every value non-negative, and the tick
 interval / number of calls of the distribution. -/
 def pipelineOp (args impl : List String) : Option (String × String) := do
+  let args := args.take 5      -- an optional sixth argument names the builder the harness goes through
   match args with
   | [r, jn, jd, d, c] =>
     let r ← hexBytes r; let d ← hexBytes d
     let jn ← jn.toNat?; let jd ← jd.toNat?; let c ← c.toNat?
     let spec := match parseRate r, impl with
-      | .ok (cnt, unit), [iv, calls, total, mn, _mx] =>
+      | .ok (cnt, unit), [iv, calls, total, mn, _mx, uneven] =>
         match newDistribution d unit, iv.toInt?, calls.toNat?, total.toInt?, mn.toInt? with
         | .ok iv', some ivI, some callsI, some tot, some mnI =>
           let n : Int := if iv' < unit then unit / iv' else 1
@@ -168,6 +169,7 @@ def pipelineOp (args impl : List String) : Option (String × String) := do
           if ivI ≠ iv' then "FAIL tick-interval-of-the-distributed-rate"
           else if (callsI : Int) ≠ (c : Int) * n then "FAIL harness-calls"
           else if mnI < 0 then "FAIL negative-value-requested"
+          else if d = b_regular ∧ uneven ≠ "0" then "FAIL regular-distribution-uneven-within-a-cycle"
           else if jn < 100 * jd ∧ jd > 0 ∧ (diff : Int) * (10 * (100 * jd - jn)) > jn * cnt * 10 + 501 * jd then
             s!"FAIL long-run-total-{tot}-not-within-the-carry-bound-of-{(c : Int) * cnt}"
           else "ok"
